@@ -259,6 +259,57 @@ def record(ctx, sentinel=False):
                   z3.BoolVal(remaining(buf) == 0))
 
 
+def retarget(ctx):
+    """ONE ConnectionContext whose protocol_version is reassigned (what
+    Connection.connect() does on a re-used connection): positions and
+    multi-block-change records must follow the NEW version"""
+    from minecraft.networking.types import Position
+    from minecraft.networking.packets.clientbound.play import \
+        MultiBlockChangePacket
+    R = MultiBlockChangePacket.Record
+    pairs = [(404, 477), (477, 404), (736, 751), (751, 736), (757, 47)]
+    v1, v2 = pairs[concretize(ctx.int('pair', 0, len(pairs) - 1))]
+    cx = _ctx(v1)
+    x = ctx.int('x', -(1 << 25), (1 << 25) - 1)
+    y = ctx.int('y', -(1 << 11), (1 << 11) - 1)
+    z_ = ctx.int('z', -(1 << 25), (1 << 25) - 1)
+    rx = ctx.int('rx', 0, 15)
+    rz = ctx.int('rz', 0, 15)
+    ry = ctx.int('ry', 0, 15)
+    bs = ctx.int('bs', 0, (1 << 31) - 1)
+    conds = []
+    for v in (v1, v2):
+        cx.protocol_version = v
+        buf = new_buffer()
+        Position.send_with_context((x, y, z_), buf, cx)
+        out = written(buf)
+        x26 = z3.Extract(25, 0, E(x))
+        z26 = z3.Extract(25, 0, E(z_))
+        y12 = z3.Extract(11, 0, E(y))
+        ref = z3.Concat(x26, z26, y12) if v >= 477 else \
+            z3.Concat(x26, y12, z26)
+        conds.append(word_of(out) == ref)
+        buf.reset_cursor()
+        p = Position.read_with_context(buf, cx)
+        conds += [E(p.x) == E(x), E(p.y) == E(y), E(p.z) == E(z_)]
+        # a record written under this version is read back by a FRESH
+        # context of the same version, and vice versa
+        rec = R(x=rx, y=ry, z=rz, block_state_id=bs)
+        for wcx, rcx in ((cx, _ctx(v)), (_ctx(v), cx)):
+            b2 = new_buffer()
+            R.send_with_context(rec, b2, wcx)
+            b2.reset_cursor()
+            try:
+                r2 = R.read_with_context(b2, rcx)
+                conds += [E(r2.x) == E(rx), E(r2.y) == E(ry),
+                          E(r2.z) == E(rz), E(r2.block_state_id) == E(bs),
+                          z3.BoolVal(remaining(b2) == 0)]
+            except Exception:
+                conds.append(z3.BoolVal(False))
+    note_key(ctx, 'C04:retarget:%d>%d' % (v1, v2))
+    return z3.And(*conds)
+
+
 def instances(tier, seed):
     out = [
         Instance('position', 'position', {}, W=96, budget_s=600),
@@ -270,6 +321,7 @@ def instances(tier, seed):
         Instance('chunk_section_decode', 'chunk_section_decode', {}, W=96,
                  budget_s=300),
         Instance('record', 'record', {}, W=96, budget_s=600),
+        Instance('retarget', 'retarget', {}, W=96, budget_s=600),
         Instance('sentinel:position', 'position', {'sentinel': True}, W=96,
                  budget_s=600, expect='violation',
                  note='reference demanding x|y|z up to protocol 450 must be '
